@@ -74,7 +74,7 @@ package datatypes
 
 //@ func (*WiredDatatype).ResetWired
 //@   mode wrap
-//@   props C13 C15 C05
+//@   props C13 C15 C05 C19 C11
 //@   requires wiredWF(its) && its.opID != nil
 //@   ensures len(its.localBuffer) == 0 && its.opID.Seq == 0
 //@   ensures its.opID == old(its.opID) && its.opID.Lamport == old(its.opID.Lamport) && its.checkPoint == old(its.checkPoint)
@@ -142,6 +142,7 @@ package datatypes
 //@   ensures[error-reply-reported]  ppp.GetPushPullPackOption().HasErrorBit() ==> result != nil
 //@   ensures[error-changes-nothing] result != nil ==> its.checkPoint.Sseq == old(its.checkPoint.Sseq) && its.checkPoint.Cseq == old(its.checkPoint.Cseq) && len(its.localBuffer) == old(len(its.localBuffer)) && its.opID.Seq == old(its.opID.Seq) && its.opID.Lamport == old(its.opID.Lamport)
 //@   ensures[plain-reply-untouched] !ppp.GetPushPullPackOption().HasErrorBit() && !ppp.GetPushPullPackOption().HasSubscribeBit() ==> result == nil && its.checkPoint.Sseq == old(its.checkPoint.Sseq) && its.checkPoint.Cseq == old(its.checkPoint.Cseq) && len(its.localBuffer) == old(len(its.localBuffer)) && its.opID.Seq == old(its.opID.Seq)
+//@   ensures[the-reply-itself-is-untouched] ppp.CheckPoint == old(ppp.CheckPoint) && ppp.CheckPoint.Sseq == old(ppp.CheckPoint.Sseq) && ppp.CheckPoint.Cseq == old(ppp.CheckPoint.Cseq) && len(ppp.Operations) == old(len(ppp.Operations)) && ppp.Option == old(ppp.Option)
 //@   ensures[subscribe-checkpoint]  result == nil && ppp.GetPushPullPackOption().HasSubscribeBit() ==> its.checkPoint.Cseq == ppp.CheckPoint.Cseq && math(its.checkPoint.Sseq) + len(ppp.Operations) == math(ppp.CheckPoint.Sseq) + (ppp.CheckPoint.Sseq < len(ppp.Operations) ? 18446744073709551616 : 0)
 //@   ensures[subscribe-resets]      result == nil && ppp.GetPushPullPackOption().HasSubscribeBit() ==> len(its.localBuffer) == 0 && its.opID.Seq == 0
 //@   ensures[subscribe-rollback-point-is-the-reset-state] result == nil && ppp.GetPushPullPackOption().HasSubscribeBit() ==> its.TransactionDatatype.$rbSeq == 0
@@ -152,7 +153,7 @@ package datatypes
 // (announced length beyond what was received) or a non-positive length must not panic or hang.
 //@ func (*WiredDatatype).ReceiveRemoteModelOperations
 //@   mode wrap
-//@   props C09 C16
+//@   props C09 C16 C11
 //@   requires[wf] wiredWF(its) && its.BaseDatatype.Datatype != nil
 //@   requires[ops-wf] opsWF(ops)
 //@   ghost-exit G.receiveCalls := old(G.receiveCalls) + 1
@@ -196,6 +197,7 @@ package datatypes
 //@   ensures[handlers-told-once]      spawned("datatypes.(*WiredDatatype).callHandlers") == old(spawned("datatypes.(*WiredDatatype).callHandlers")) + 1
 //@   ensures[error-reply-changes-nothing] old(ppp.GetPushPullPackOption().HasErrorBit()) ==> its.checkPoint.Sseq == old(its.checkPoint.Sseq) && its.checkPoint.Cseq == old(its.checkPoint.Cseq) && len(its.localBuffer) == old(len(its.localBuffer)) && its.opID.Seq == old(its.opID.Seq) && G.receiveCalls == old(G.receiveCalls) && its.state == old(its.state)
 //@   ensures[plain-reply-applied-once] !old(ppp.GetPushPullPackOption().HasErrorBit()) && !old(ppp.GetPushPullPackOption().HasSubscribeBit()) ==> G.receiveCalls == old(G.receiveCalls) + 1
+//@   ensures[a-stale-or-repeated-reply-hands-nothing-to-the-datatype-in-any-state] !old(ppp.GetPushPullPackOption().HasErrorBit()) && !old(ppp.GetPushPullPackOption().HasSubscribeBit()) && old(cpInRange(its.checkPoint, ppp.CheckPoint)) && old(pulledOf(its.checkPoint, ppp.CheckPoint)) <= 0 ==> G.lastReceived == 0
 //@   modifies *
 
 // ---------------------------------------------------------------------------------------
@@ -221,7 +223,7 @@ package datatypes
 // executeRemoteBase: the local clock moves past the remote operation's clock (causality, C15).
 //@ func (*BaseDatatype).executeRemoteBase
 //@   mode wrap
-//@   props C15
+//@   props C15 C02 C09
 //@   requires baseWF(its) && op != nil && op.GetID() != nil
 //@   ensures[clock-not-behind-remote] old(op.GetID() != its.opID && idRoom(its) && op.GetID().Lamport < 4611686018427387904) ==> its.opID.Lamport >= old(op.GetID().Lamport) && its.opID.Lamport >= old(its.opID.Lamport)
 //@   ensures[seq-untouched] its.opID == old(its.opID) && its.opID.Seq == old(its.opID.Seq)
@@ -231,7 +233,7 @@ package datatypes
 // rollback); a remote one must resynchronise the clock exactly as the first delivery did.
 //@ func (*BaseDatatype).Replay
 //@   mode wrap
-//@   props C15 C09
+//@   props C15 C09 C02 C04 C01
 //@   requires baseWF(its) && op != nil && op.GetID() != nil
 //@   ensures[remote-resyncs-clock] old(op.GetID().CUID != its.opID.CUID && op.GetID() != its.opID && idRoom(its) && op.GetID().Lamport < 4611686018427387904) ==> its.opID.Lamport >= old(op.GetID().Lamport) && its.opID.Lamport >= old(its.opID.Lamport) && its.opID.Seq == old(its.opID.Seq)
 //@   ensures[local-renumbers] old(op.GetID().CUID == its.opID.CUID && idRoom(its)) && result == nil ==> its.opID.Seq == old(its.opID.Seq) + 1
@@ -277,7 +279,7 @@ package datatypes
 // and makes the result the new commit point: afterwards nothing is left to replay.
 //@ func (*TransactionDatatype).Rollback
 //@   mode wrap
-//@   props C09 C03
+//@   props C09 C03 C01 C15
 //@   requires txWF(its) && its.txCtx != nil
 //@   loop 0 invariant[self] its.txCtx == old(its.txCtx) && its.isLocked == old(its.isLocked) && its.mutex == old(its.mutex) && its.BaseDatatype == old(its.BaseDatatype) && baseWF(its.BaseDatatype)
 //@   loop 0 invariant[ops] opsIDed(its.rollbackOps) && sameSlice(its.rollbackOps, old(its.rollbackOps))
@@ -293,7 +295,7 @@ package datatypes
 // from a local call or from a remote delivery, and is handed on exactly when it is local.
 //@ func (*TransactionDatatype).EndTransaction
 //@   mode wrap
-//@   props C09
+//@   props C09 C03 C15 C05
 //@   requires txWF(its) && (txCtx != nil ==> allocated(txCtx)) && rollbackSound()
 //@   requires[owner-is-locked] txCtx == its.txCtx ==> its.isLocked
 //@   requires[marker-first] txCtx == its.txCtx && its.success && withOp ==> len(its.txCtx.opBuffer) >= 1 && its.txCtx.opBuffer[0] != nil
@@ -338,6 +340,7 @@ package datatypes
 //@   ensures[accepted-consumes-one-id] old(idRoom(its.BaseDatatype)) && isLocal && result1 == nil ==> its.opID.Seq == old(its.opID.Seq) + 1
 //@   ensures[wf] txWF(its)
 //@   assumes[document-operations-return-json-nodes] isLocal && result1 == nil && result0 != nil && (op.(*operations.DocPutInObjOperation) || op.(*operations.DocRemoveInObjOperation)) ==> result0.(*orda.jsonObject) || result0.(*orda.jsonArray) || result0.(*orda.jsonElement)
+//@   assumes[list-update-returns-the-replaced-values] isLocal && result1 == nil && op.(*operations.UpdateOperation) ==> result0.([]interface{})
 //@   assumes[a-local-document-remove-returns-the-removed-node] isLocal && result1 == nil && op.(*operations.DocRemoveInObjOperation) ==> result0 != nil
 //@   assumes[document-array-operations-return-json-nodes] isLocal && result1 == nil && (op.(*operations.DocUpdateInArrayOperation) || op.(*operations.DocDeleteInArrayOperation)) ==> result0.([]orda.jsonType)
 //@   assumes[list-delete-returns-the-deleted-values] isLocal && result1 == nil && op.(*operations.DeleteOperation) && result0 != nil ==> result0.([]types.JSONValue) && (forall v in result0.(as []types.JSONValue) :: v != nil)
@@ -353,7 +356,7 @@ package datatypes
 // rolled back and nothing is handed on; otherwise the whole unit is committed and handed on once.
 //@ func (*TransactionDatatype).DoTransaction
 //@   mode wrap
-//@   props C09
+//@   props C09 C15 C05
 //@   requires txWF(its) && !its.isLocked && rollbackSound() && (currentTxCtx != nil ==> allocated(currentTxCtx)) && currentTxCtx != its.txCtx
 //@   callback-ensures funcWithCloneDatatype: txWF(its) && its.isLocked && its.txCtx == old(its.txCtx) && its.success == old(its.success) && opsIDed(its.txCtx.opBuffer) && len(its.txCtx.opBuffer) >= old(len(its.txCtx.opBuffer)) && sameFirst(its.txCtx.opBuffer, old(its.txCtx.opBuffer)) && G.deliverCalls == old(G.deliverCalls) && len(its.rollbackOps) == old(len(its.rollbackOps))
 //@   ensures[always-unlocked] !its.isLocked && !sel(G.held, its.mutex)
@@ -385,3 +388,15 @@ package datatypes
 //@   ensures[errors-reported-iff-any]              G.toldErrors == old(G.toldErrors) + (len(errs.(as *errors.MultipleOrdaErrors).errs) > 0 ? 1 : 0)
 //@   ensures[remote-ops-reported-iff-any]          G.toldRemoteOps == old(G.toldRemoteOps) + (len(opList) > 0 ? 1 : 0)
 //@   modifies G:toldStateChange, G:toldErrors, G:toldRemoteOps, alloc
+
+// DeliverTransaction (the wired layer): EVERY operation of the unit — also a unit that consists of its marker only,
+// whose identifier is already consumed — is queued for push, in order.
+//@ func (*WiredDatatype).DeliverTransaction
+//@   mode wrap
+//@   props C05 C15 C09
+//@   requires wiredWF(its) && its.BaseDatatype.ctx != nil && its.BaseDatatype.ctx.Client != nil && (its.wire == nil ==> its.BaseDatatype.ctx.Client.SyncType != model.SyncType_REALTIME)
+//@   requires forall op in transaction :: op != nil
+//@   loop 0 invariant len(its.localBuffer) == old(len(its.localBuffer)) + rangeindex + 1 && rangeindex < len(transaction)
+//@   ensures[every-operation-of-the-unit-is-queued-for-push] its.wire == nil ==> len(its.localBuffer) == old(len(its.localBuffer)) + len(transaction)
+//@   ensures[the-wire-is-told-after-the-whole-unit-is-queued] its.wire != nil ==> G.wireSaw == old(len(its.localBuffer)) + len(transaction)
+//@   modifies *
